@@ -322,7 +322,7 @@ def task_hill(tier, seed, arg):
                "order_total only); per formula: Hill atoms == atoms == independent count; order of hill.structure against the "
                "oracle (D and T are placed alphabetically at 'D' and 'T', H[1] with hydrogen; ions of one element in any "
                "relative order); idempotence; 4 regroupings (splitting, shuffling, grouping with factors 2, 4, 0.5, exact in "
-               "floats) and 2 dict insertion orders must have == Hill forms with equal strings; plus one flat string in the "
+               "floats) and 2 dict insertion orders (reverse and forward name order) must have == Hill forms with equal strings; plus one flat string in the "
                "oracle's order per case (no two atoms that the statement leaves unordered) for formula(s) == formula(s).hill; "
                "bounded: %d cases; distinct = distinct atom sets with >= 2 atoms" % (COUNTS, len(POOL_NAMES), n))
     F = Families(R)
@@ -335,11 +335,9 @@ def task_hill(tier, seed, arg):
         else:
             struct = nat.random_structure(rng, pool, depth=rng.randint(0, 2), maxlen=5, counts=COUNTS)
         atoms = nat.count_atoms(struct)
-        variants = [struct_repr(regroup(rng, atoms)) for _ in range(4)]
-        keys = sorted(atoms, key=name_of)
-        variants.append({"dict": [name_of(a) for a in reversed(keys)]})
-        rng.shuffle(keys)
-        variants.append({"dict": [name_of(a) for a in keys]})
+        keys = sorted(atoms, key=name_of)      # two insertion orders that do not depend on the seed come first
+        variants = [{"dict": [name_of(a) for a in reversed(keys)]}, {"dict": [name_of(a) for a in keys]}]
+        variants += [struct_repr(regroup(rng, atoms)) for _ in range(4)]
         inp = {"struct": struct_repr(struct), "variants": variants}
         check_hill(R, F, inp)
         if len(atoms) >= 2:
